@@ -6,7 +6,7 @@
    group share the default name: C02_refuted_F25); F13 (repeated names) is repaired.
    (4) bindings with namespace.labelSelector: the informer set follows the set of matching
    namespaces (theorems C02_dyn_...); the namespace-level ghost (C02_dyn_refuted_F32) is reported. *)
-From Verif Require Import Common C02_Model C02_Spec C02_Proofs C02_DynProofs.
+From Verif Require Import Common C02_Model C02_Spec C02_Proofs C02_DynProofs C02_Comp C02_CompSpec C02_CompProofs.
 From Verif Require C01_Model C01_Spec C01_Proofs.
 Open Scope N_scope.
 
@@ -98,6 +98,31 @@ Example C02_dyn_hyp_met :
                    [DNs 1 false; DRead; DNs 2 true; DObj OModify (2, 2, 16); DRestart; DRead; DNsDel 2; DRead] true false in
   T_nsghost i = false /\ dyn_views i = [[]; [(2, 2, Some 6, None)]; []].
 Proof. vm_compute. split; reflexivity. Qed.
+
+(* ---- a second binding with static namespaces beside the labelSelector binding (C02_Comp): bindings
+   whose informers share client-go shared informers of the process-wide factory store.  At every
+   read point of every history the companion shows exactly the objects of ITS namespaces in their
+   current state - whatever the namespaces' labels (and so the other binding's informers) do;
+   no hypothesis. *)
+Theorem C02_comp_views_are_matching : forall i k, P_comp i k (comp_views i k) false = true.
+Proof. exact comp_views_are_matching. Qed.
+Print Assumptions C02_comp_views_are_matching.
+
+Theorem C02_dyn2_partial : forall i k, T_nsghost i = false ->
+  P_dyn2 i k (dyn_views i) (comp_views i k) false = true.
+Proof. exact dyn2_partial. Qed.
+Print Assumptions C02_dyn2_partial.
+
+(* non-vacuity: namespace 1 matches, is emptied, deleted and re-created without the label; an
+   object appears in it: the first binding shows nothing then, the companion (namespaces 1, 2) does *)
+Example C02_dyn2_hyp_met :
+  let i := mkDynIn [] [(1, 1, 1)] [(1, true)] None
+                   [DRead; DObj ODelete (1, 1, 0); DNsDel 1; DNs 1 false; DObj OCreate (1, 2, 7); DObj OCreate (2, 1, 3); DRead] false true in
+  let k := mkDComp [1; 2] [] false true in
+  T_nsghost i = false /\
+  dyn_views i = [[(1, 1, None, Some 1)]; []] /\
+  comp_views i k = [[(1, 1, None, Some 1)]; [(1, 2, None, Some 7); (2, 1, None, Some 3)]].
+Proof. vm_compute. repeat split; reflexivity. Qed.
 
 Example C02_hyp_met :
   let i := mkSnapIn [1; 2; 1] [3; 3] [(1, 3, 1)] [(OCreate, (2, 3, 1)); (OModify, (1, 3, 2)); (OCreate, (3, 3, 5))] None true true true in
